@@ -1,7 +1,7 @@
 """C09 Recon text is a faithful and stable encoding, however it is chunked (structural clauses only)."""
 import re
 
-from mirlib import AnchorMissing, describe_call, describe_operand, describe_place, describe_rvalue, dom_guards, guards, switch_desc, _suffix_match
+from mirlib import op_place, AnchorMissing, describe_call, describe_operand, describe_place, describe_rvalue, dom_guards, guards, switch_desc, _suffix_match
 from rules.common import cast_chain, panic_sites, where
 
 META = {
@@ -196,6 +196,102 @@ def run(ctx):
             closes = [c for c in braces(dn, "}") if any(f in closeflag and l == "true" for f, l in field_guard(dn, c))]
             r.check(len(closeflag) == 1 and len(closes) == 1 and opens and rec.dominates(opens[0][0].block, [i for i, j, p_, rv, line in rec.assigns() if describe_place(rec, p_).endswith("." + closeflag[0])][0]) if closeflag else False,
                     "done/closes-what-record-opened", closes[0].loc() if closes else where(dn), "record() remembers the brace in `%s` and done() writes the matching '}'" % (closeflag[0] if closeflag else "?"), "the brace opened by record() is not closed by done()")
+
+    with ctx.rule("C09.R1c", "T1", "both record printers: after attributes, a single item is either inside braces or written by a printer that braces records; a slot is always inside braces", floor=5) as r:
+        # the same discipline as R1b for the printer of attribute values, and for slots in both printers: `@a(@b k: 1)` reads the attribute as part of
+        # the key, `@a(@b {1})` is a different value from `@a(@b {{1}})`
+        def pr_fn(adt, name, trait):
+            bs = [b for b in rc.all_bodies() if adt in b.defpath.split(" as ")[0] and b.meta.get("name") == name and "{closure" not in b.defpath and trait in b.defpath]
+            if len(bs) != 1:
+                raise AnchorMissing("%s::%s (%d found)" % (adt, name, len(bs)))
+            return ctx.saw(bs[0])
+
+        def flag_edges(b, extra=()):
+            out = []
+            for sb in range(b.n):
+                if b.is_cleanup(sb) or b.term(sb)["k"] != "switch":
+                    continue
+                d = switch_desc(b, sb)
+                t = b.term(sb)
+                arms = {int(v) if isinstance(v, str) else v: tb for v, tb in t["arms"]}
+                if set(arms) == {0}:
+                    tr, fa = t["otherwise"], arms[0]
+                elif set(arms) == {1}:
+                    tr, fa = arms[1], t["otherwise"]
+                else:
+                    continue
+                if d == "self.has_attr":
+                    out.append((sb, fa))
+                elif d == "self.brace_written":
+                    out.append((sb, tr))
+                elif d in extra:
+                    out.append((sb, fa))
+            # a local flag computed as `.. && !self.brace_written`: on its false edge either the braces are open, or the flag was set to the
+            # constant false on a path that is itself excused
+            for sb in range(b.n):
+                if b.is_cleanup(sb) or b.term(sb)["k"] != "switch":
+                    continue
+                t = b.term(sb)
+                pl = op_place(t["discr"])
+                if pl is None or pl[1]:
+                    continue
+                loc_ = pl[0]
+                for _hop in range(6):
+                    ds_ = b.defs.get(loc_, ())
+                    if len(ds_) == 1 and ds_[0][0] == "assign" and ds_[0][3][0] == "use" and op_place(ds_[0][3][1]) is not None and not op_place(ds_[0][3][1])[1]:
+                        loc_ = op_place(ds_[0][3][1])[0]
+                    else:
+                        break
+                defs = [d_ for d_ in b.defs.get(loc_, ()) if d_[0] == "assign"]
+                if not defs or len(defs) != len(b.defs.get(loc_, ())):
+                    continue
+                okd = True
+                for d_ in defs:
+                    rvd = describe_rvalue(b, d_[3])
+                    if rvd in ("Not(self.brace_written)",):
+                        continue
+                    if rvd == "False" and b.must_pass_edges([0], set(), discharge_edges=out, targets={d_[1]})[0]:
+                        continue
+                    okd = False
+                arms = {int(v) if isinstance(v, str) else v: tb for v, tb in t["arms"]}
+                if okd and set(arms) == {0}:
+                    out.append((sb, arms[0]))
+            return out
+
+        def braces_open(b):
+            return {c.block for c in b.calls if c.name == "write_str" and len(c.args) == 2 and describe_operand(b, c.args[1]) == "'{'"}
+        markers = {"single_item"}
+        for adt in ("printer::StructurePrinter", "printer::AttributePrinter"):
+            short_ = adt.split("::")[-1]
+            wv = pr_fn(adt, "write_value", "BodyWriter")
+            ws = pr_fn(adt, "write_slot", "BodyWriter")
+            if adt.endswith("AttributePrinter"):
+                wws = [c for c in wv.calls if c.name == "write_with"]
+                marks = {c.block for c in wv.calls if c.name in markers}
+                # AttributePrinter records "exactly one item" in `single_item` when the header is completed; with attributes and more than one item
+                # complete_header has already opened the braces (checked here), so `single_item == false` also means "inside braces or no attributes"
+                ch0 = pr_fn(adt, "complete_header", "HeaderWriter")
+                many = [c for c in ch0.calls if c.name == "write_str" and len(c.args) == 2 and describe_operand(ch0, c.args[1]) == "'{'" and any(d == "self.has_attr" and l == "true" for d, l, _ in dom_guards(ch0, c.block))]
+                bw = [i for i, j, p_, rv, line in ch0.assigns() if describe_place(ch0, p_) == "self.brace_written" and rv[0] == "use" and rv[1][0] == "k" and rv[1][1].get("b") is True]
+                inv = bool(many) and any(ch0.dominates(c.block, i) for c in many for i in bw) and any(describe_rvalue(ch0, rv).startswith("Eq(num_items, 1)") or "num_items" in describe_rvalue(ch0, rv) for i, j, p_, rv, line in ch0.assigns() if describe_place(ch0, p_) == "self.single_item")
+                r.check(inv, "AttributePrinter/complete_header/many-items-after-attributes=>braces-open", where(ch0), "with attributes and more than one item the braces are opened when the header is completed, and single_item := (num_items == 1)",
+                        "complete_header no longer opens the braces for several items after attributes (or single_item is not num_items == 1)")
+                dis = flag_edges(wv, ("self.single_item",) if inv else ())
+                for k, c in enumerate(wws):
+                    ok, wit = wv.must_pass_edges([0], braces_open(wv) | marks, discharge_edges=dis, targets={c.block})
+                    r.check(ok, "%s/write_value/nested#%d/inside-braces-or-marked" % (short_, k), c.loc(), "the nested value is written inside braces, or without attributes before it, or by a printer that braces a record",
+                            "AttributePrinter::write_value hands an ordinary printer to the only item of an attribute value that has attributes: `@a(@b {{1}})` is printed `@a(@b { 1 })`, a different value")
+            wws = sorted([c for c in ws.calls if c.name == "write_with"], key=lambda c: sum(1 for y in ws.calls if y.name == "write_with" and y is not c and ws.dominates(y.block, c.block)))
+            if len(wws) < 2:
+                raise AnchorMissing("%s::write_slot: key and value writes" % short_)
+            ok, wit = ws.must_pass_edges([0], braces_open(ws), discharge_edges=flag_edges(ws), targets={wws[0].block})
+            r.check(ok, "%s/write_slot/key-inside-braces" % short_, wws[0].loc(), "a slot that follows attributes is written inside braces (opened here if they are not open yet)",
+                    "%s::write_slot can write a slot straight after the attributes: `@b k: 1` is read as a slot whose key is `@b k`" % short_)
+            ch = pr_fn(adt, "complete_header", "HeaderWriter")
+            # complete_header must not commit to the brace-less form (a separator) before it is known whether the single item is a slot
+            sp = [c for c in ch.calls if c.name == "write_str" and len(c.args) == 2 and describe_operand(ch, c.args[1]) == "' '"]
+            r.check(not sp, "%s/complete_header/does-not-commit-to-braceless-single-item" % short_, sp[0].loc() if sp else where(ch), "complete_header leaves the form of a single item to the item writers",
+                    "complete_header writes the separator of the brace-less single-item form before the kind of the item is known: a slot then follows the attributes without braces")
 
     with ctx.rule("C09.R2", "T5", "escape tables of printer and tokenizer are mutually inverse", floor=12) as r:
         et = ctx.saw(md.fn(suffix="literal::escape_text"))
